@@ -90,6 +90,10 @@ def conformance(pid, tier, seed):
             evs += renumber(e, i * 10_000_000)
         c.validate(evs, mod, cfg, f"conf-{fam}", what=f"{fam} conformance", cost=cost_conf(fam),
                    shards=14 if fam in ("Blowfish", "Serpent") or thorough else 8)
+        if fam == "DES":
+            # key relations of C05 (parity, complementation, EDE collapse, two-key = three-key) through the L1 key class
+            rel = c.drive("default", "desrel", keys=60 if thorough else 10)
+            c.validate(rel, API_MOD, API_CFG, "desrel", what="DES/TDES key relations")
         if fam == "Belt":
             wb = c.drive("default", "wblock", maxlen=48 if not thorough else 100, extra=1 if not thorough else 6,
                          keys=1 if not thorough else 3, minlen=28)
